@@ -232,6 +232,7 @@ Definition fails (b : bool) (k : nat) : list nat := if b then [] else [k].
     23 an acknowledgement appeared that is not the one of an accepted receive of exactly that triple   C05
     24 an accepted transaction's PacketSent log whose bytes do not decode, or whose triple does not hold
        sha256(emitted bytes) as commitment afterwards                          C04
+    25 a client is registered under the chain's own name (fix a9e74e1: the create proposal must be refused)   C04 C05
     19 accepted receive/ack not verified (client API or low-level recomputation false, no client, stored
        commitment differs)                                                     C02 *)
 Definition mon_step (o : oracles) (m : mchain) (st : ostep) : list nat * mchain :=
@@ -242,6 +243,7 @@ Definition mon_step (o : oracles) (m : mchain) (st : ostep) : list nat * mchain 
                   | ARegisterClient n c _ => if accepted then aset n c (m_clients m) else m_clients m
                   | AToggleClient n c _ => if accepted then aset n c (m_clients m) else m_clients m
                   | _ => m_clients m end in
+  let k25 := fails (negb (ahas (m_name m) clients')) 25 in
   let k12 := fails (accepted || (store_eqb before after && os_unchanged st)) 12 in
   let k20 := fails (sub_store (family (B "receipts/") before) after) 20 in
   let k16 := fails (sub_store (family (B "acks/") before) after) 16 in
@@ -328,7 +330,7 @@ Definition mon_step (o : oracles) (m : mchain) (st : ostep) : list nat * mchain 
                            accepted && bytes_eqb (fst kv) (c_commitment_key (p_src p) (p_dst p) (p_seq p))
                            && match t_pack o p with Some bz => bytes_eqb (snd kv) (t_sha o bz) | None => false end
                        | _ => false end) gone) 17 in
-  (k12 ++ k20 ++ k16 ++ k13 ++ k14 ++ k24 ++ kmsg ++ k17 ++ k23, mkM (m_name m) clients' after recvd' acked').
+  (k12 ++ k20 ++ k16 ++ k13 ++ k14 ++ k24 ++ k25 ++ kmsg ++ k17 ++ k23, mkM (m_name m) clients' after recvd' acked').
 
 Fixpoint mon_steps (o : oracles) (i : nat) (ms : list mchain) (l : list ostep) : list (nat * nat) :=
   match l with
